@@ -8,7 +8,7 @@
 (* One initial state per program; the reference verdict is printed as a    *)
 (* CASE line for the replay on the real compiler.                          *)
 (***************************************************************************)
-EXTENDS Kinds, Families, Json
+EXTENDS Kinds, Families, Json, IOUtils
 
 CONSTANTS Positions, Shapes, Indirections
 
